@@ -5,6 +5,7 @@ import DaskModel.Lemmas.TextSplit
 import DaskModel.Lemmas.TextLines
 import DaskModel.Lemmas.Round53
 import DaskModel.Lemmas.TextSeekChunked
+import DaskModel.Lemmas.TextUtf8
 /-! # C50 — block-wise text reading reproduces the file exactly (theorems)
 
 Statement: for any file contents, delimiter and blocksize, the blocks from `read_bytes` concatenate to
@@ -458,6 +459,155 @@ theorem univ_blocksize_independent (A : FArith) (hA : GoodArith A) (data : List 
       rw [hflat] at this
       rw [← this, List.flatMap_def]
 
+/-! ## 2b. `not_zero` and the header `sample` -/
+
+/-- **`blocks_not_zero`**: with `not_zero=True` the blocks concatenate to the file WITHOUT its header: everything
+    after the first delimiter that starts at or after byte 1 (nothing, if there is none) — for every content,
+    non-empty delimiter and blocksize -/
+theorem blocks_not_zero (A : FArith) (hA : GoodArith A) (data d : List Nat) (hd : d ≠ []) (b : Nat) (hb : 0 < b)
+    (hs : 0 < data.length) (hsz : data.length < 2 ^ 53) :
+    ∃ blocks, fileBlocksNotZero A data d b = some blocks ∧ blocks.flatten = data.drop (seekPos d data 1) := by
+  obtain ⟨offs, ho, h0, hpw, hlt⟩ := offsets_planOK A hA data.length b hs hb hsz
+  cases offs with
+  | nil => simp at h0
+  | cons o rest =>
+    have : o = 0 := by simpa using h0
+    subst this
+    have hplan : planNotZero A data.length b = some (1 :: rest, lengthsOf data.length (1 :: rest)) := by
+      simp only [planNotZero, plan, ho, Option.map_some]
+      rw [lengthsOf_head_shift]
+    refine ⟨blocksOf data d (1 :: rest), by simp [fileBlocksNotZero, hplan, blocksOf], ?_⟩
+    apply blocksOf_flatten_le hd rest 1
+    · rw [List.pairwise_cons] at hpw ⊢
+      refine ⟨fun x hx => ?_, hpw.2.imp (fun h => Nat.le_of_lt h)⟩
+      have := hpw.1 x hx; omega
+    · intro x hx
+      rcases List.mem_cons.mp hx with rfl | hx
+      · omega
+      · exact Nat.le_of_lt (hlt x (List.mem_cons_of_mem _ hx))
+
+example : fileBlocksNotZero ieee [104, 10, 97, 10, 98, 10, 99] [10] 2 = some [[97, 10], [98, 10], [99]] := by decide +kernel
+
+theorem sampleLoop_spec (n : Nat) (d data : List Nat) (fuel pos : Nat) (buff : List Nat)
+    (hbuff : buff = data.take pos) (hpos : pos ≤ data.length ∨ buff = data) :
+    sampleLoop n d data fuel pos buff <+: data := by
+  induction fuel generalizing pos buff with
+  | zero => simp only [sampleLoop]; rw [hbuff]; exact List.take_prefix _ _
+  | succ fuel ih =>
+    simp only [sampleLoop]
+    split
+    · rw [hbuff]; exact List.take_prefix _ _
+    · next hne =>
+      have hsplit : data = data.take pos ++ (data.drop pos) := (List.take_append_drop pos data).symm
+      split
+      · next i hi =>
+        -- new = … ++ d ++ …, so buff ++ new.take i ++ d is a prefix of buff ++ new, a prefix of data
+        obtain ⟨hpre, _, _⟩ := (findIdx_eq_some_iff d _ i).mp hi
+        obtain ⟨r, hr⟩ := hpre
+        have hnew : (data.drop pos).take n = ((data.drop pos).take n).take i ++ (d ++ r) := by
+          rw [hr]; exact (List.take_append_drop i _).symm
+        have h1 : buff ++ ((data.drop pos).take n).take i ++ d <+: buff ++ (data.drop pos).take n := by
+          refine ⟨r, ?_⟩
+          rw [List.append_assoc, List.append_assoc, ← hnew]
+        have h2 : buff ++ (data.drop pos).take n <+: data := by
+          rw [hbuff]
+          refine ⟨(data.drop pos).drop n, ?_⟩
+          rw [List.append_assoc, List.take_append_drop, List.take_append_drop]
+        exact h1.trans h2
+      · apply ih (pos + n) _ _
+        · by_cases h : pos + n ≤ data.length
+          · exact Or.inl h
+          · right
+            rw [hbuff]
+            have : (data.drop pos).take n = data.drop pos := List.take_of_length_le (by simp; omega)
+            rw [this, List.take_append_drop]
+        · rw [hbuff, List.take_add]
+
+/-- the `sample` of `read_bytes` is a prefix of the file -/
+theorem sample_prefix (n : Nat) (d data : List Nat) : sampleOf n d data <+: data := by
+  apply sampleLoop_spec n d data _ n _ rfl
+  by_cases h : n ≤ data.length
+  · exact Or.inl h
+  · exact Or.inr (List.take_of_length_le (by omega))
+
+theorem sampleLoop_ends (n : Nat) (hn : 0 < n) (d data : List Nat) (fuel pos : Nat) (buff : List Nat)
+    (hbuff : buff = data.take pos) (hf : data.length < pos + fuel * n) :
+    sampleLoop n d data fuel pos buff = data ∨ d <:+ sampleLoop n d data fuel pos buff := by
+  induction fuel generalizing pos buff with
+  | zero =>
+    left
+    simp only [sampleLoop]; rw [hbuff]
+    exact List.take_of_length_le (by omega)
+  | succ fuel ih =>
+    simp only [sampleLoop]
+    split
+    · next hemp =>
+      left
+      rw [hbuff]
+      apply List.take_of_length_le
+      have : (data.drop pos).take n = [] := by simpa using hemp
+      have hl := congrArg List.length this
+      simp only [List.length_take, List.length_drop, List.length_nil] at hl
+      omega
+    · split
+      · right; exact ⟨_, rfl⟩
+      · apply ih (pos + n) _ (by rw [hbuff, List.take_add])
+        rw [Nat.add_mul] at hf; omega
+
+/-- the `sample` is the whole file or ends with the delimiter (`sample > 0`) -/
+theorem sample_ends (n : Nat) (hn : 0 < n) (d data : List Nat) :
+    sampleOf n d data = data ∨ d <:+ sampleOf n d data := by
+  apply sampleLoop_ends n hn d data _ n _ rfl
+  have : data.length + 1 ≤ (data.length + 1) * n := Nat.le_mul_of_pos_right _ hn
+  omega
+
+example : sampleOf 2 [10] [97, 98, 99, 100, 10, 101, 10, 102] = [97, 98, 99, 100, 10] := by decide
+
+
+/-! ## 3f. UTF-8: cutting bytes vs splitting text -/
+
+/-- **`utf8_split_commutes`** (UTF-8 is self-synchronising): for valid code points and a non-empty delimiter,
+    `text.encode().split(delimiter.encode())` is `[p.encode() for p in text.split(delimiter)]` -/
+theorem utf8_split_commutes (d t : List Nat) (hd : ValidText d) (hne : d ≠ []) (ht : ValidText t) :
+    pySplit (encode d) (encode t) = (pySplit d t).map (List.map encode) := by
+  have hde : d.isEmpty = false := by cases d <;> simp_all
+  have hdeb : (encode d).isEmpty = false := by
+    cases h : encode d with
+    | nil => exact absurd (encode_eq_nil.mp h) hne
+    | cons _ _ => rfl
+  simp only [pySplit, hde, hdeb, Bool.false_eq_true, if_false, Option.map_some, Option.some.injEq]
+  exact pySplitAux_encode hd hne t.length t (Nat.le_refl _) ht [] [] (by simp [encode_nil])
+
+/-- the reference lines of the bytes are the encodings of the reference lines of the text -/
+theorem refLines_encode (d t : List Nat) (hd : ValidText d) (hne : d ≠ []) (ht : ValidText t) :
+    refLines (encode d) (encode t) = (refLines d t).map (List.map encode) := by
+  simp only [refLines, utf8_split_commutes d t hd hne ht, Option.map_map]
+  congr 1
+  funext parts
+  show List.map (fun x => x ++ encode d) (List.map encode parts).dropLast ++ lastPart (List.map encode parts) =
+    List.map encode (List.map (fun x => x ++ d) parts.dropLast ++ lastPart parts)
+  rw [List.map_append, lastPart_map_encode, List.map_dropLast, List.map_map, List.map_map, List.map_dropLast]
+  congr 2
+  apply List.map_congr_left
+  intro p _
+  simp [encode_append]
+
+/-- **`read_text_utf8`**: for every valid text, delimiter (non-empty, border-free as a string) and blocksize,
+    the BYTE lines `read_text` computes block-wise are exactly the UTF-8 encodings of the text split after each
+    delimiter (no empty trailing element) — the block boundaries never cut a multi-byte character apart. -/
+theorem read_text_utf8 (d t : List Nat) (hd : ValidText d) (hne : d ≠ []) (ht : ValidText t)
+    (hbf : BorderFree d) (b : Nat) (hb : 0 < b) (hsz : (encode t).length < 2 ^ 53) :
+    readTextLines ieee (encode d) (encode t) (some b) = (refLines d t).map (List.map encode) := by
+  have hneb : encode d ≠ [] := fun h => hne (encode_eq_nil.mp h)
+  obtain ⟨h1, h2⟩ := lines_blocksize_independent_ieee (encode d) (encode t) hneb (borderFree_encode d hd hbf) b hb hsz
+  rw [h1, h2, refLines_encode d t hd hne ht]
+
+example : encode [97, 233, 8364, 119070] = [97, 195, 169, 226, 130, 172, 240, 157, 132, 158] := by decide
+example : BorderFree (encode [8364, 124]) := borderFree_encode _ (by intro c hc; simp at hc; omega) (by unfold BorderFree; decide)
+example : readTextLines ieee (encode [8364]) (encode [97, 8364, 8364, 98]) (some 2) =
+    some [encode [97, 8364], encode [8364], encode [98]] := by decide +kernel
+
+
 /-! ## 4. refutation witnesses (statements that are / were false of the code) -/
 
 /-- DESIGN §6 #11 (finding): with the self-overlapping delimiter `aa` the lines of `aaab` depend on
@@ -478,5 +628,42 @@ theorem fileToBlocksOrig_trailing_empty :
 
 /-- (repaired by ece4d43): the ORIGINAL `decode` lost the trailing `a` of `aaa` split at `aa`. -/
 theorem decodeOrig_drops_tail : decodeOrig [97, 97] [97, 97, 97] = some [[97, 97]] := by decide
+
+/-- (finding `read_text:utf-16/utf-32-encoding:blocksize:…`) a UTF-16 file: `read_bytes` cuts after the byte
+    `0A` — in the middle of the code unit `0A 00`. The first block of `a\nb` (utf-16-le, blocksize 2) has three
+    bytes and the second starts with the orphaned `00`: neither can be decoded as UTF-16. -/
+theorem utf16_block_cuts_code_unit :
+    fileBlocks ieee [97, 0, 10, 0, 98, 0] [10] (some 2) = some [[97, 0, 10], [0, 98, 0], []] := by decide +kernel
+
+/-! ## non-vacuity: the hypotheses of the theorems above hold for concrete, non-trivial inputs -/
+
+example : ∃ offs lens, plan ieee 39 4 = some (offs, lens) ∧ offs.head? = some 0 ∧ offs.Pairwise (· < ·) ∧
+    (∀ o ∈ offs, o < 39) ∧ lens.length = offs.length ∧ (∀ l ∈ lens, 0 < l) ∧ lens.sum = 39 :=
+  offsets_cover_ieee 39 4 (by decide) (by decide) (by decide)
+example : ∃ offs, offsets ieee 12 4 = some offs ∧ PlanOK 12 offs :=
+  offsets_cover_int ieee 12 4 (by decide) (by decide) (Or.inl (by decide))
+example : ∃ blocks, fileBlocks ieee [97, 124, 124, 98, 124, 124, 99] [124, 124] (some 2) = some blocks ∧
+    blocks.flatten = [97, 124, 124, 98, 124, 124, 99] :=
+  blocks_concat_file_ieee _ [124, 124] (by decide) (some 2) (by intro b hb; cases hb; decide) (by decide)
+-- a seek from inside `a||b||c` (position 2, in the middle of the first `||`) ends just after the SECOND `||`
+example : [124, 124] <:+ [97, 124, 124, 98, 124, 124, 99].take (seekPos [124, 124] [97, 124, 124, 98, 124, 124, 99] 2) :=
+  boundary_after_delimiter [124, 124] _ 2 (by decide) (by decide) (by decide)
+example : readTextLines ieee [13, 10] [97, 13, 10, 98, 13, 13, 10, 99] (some 3) =
+    readTextLines ieee [13, 10] [97, 13, 10, 98, 13, 13, 10, 99] none ∧
+    readTextLines ieee [13, 10] [97, 13, 10, 98, 13, 13, 10, 99] none = refLines [13, 10] [97, 13, 10, 98, 13, 13, 10, 99] :=
+  lines_blocksize_independent_ieee [13, 10] _ (by decide) (by unfold BorderFree; decide) 3 (by decide) (by decide)
+example : ∃ ps, readTextFiles [124] [[97, 124, 98], [], [99, 124]] (some 2) = some ps ∧
+    ps.flatten = allLines [124] [[97, 124, 98], [], [99, 124]] :=
+  read_text_files [124] (by decide) _ (some 2) (by intro n hn; cases hn; decide)
+example : readTextUniv ieee [97, 13, 10, 98, 13, 99, 10, 100] (some 2) = readTextUniv ieee [97, 13, 10, 98, 13, 99, 10, 100] none :=
+  univ_blocksize_independent ieee ieee_good _ 2 (by decide) (by decide)
+example : ∃ blocks, fileBlocksNotZero ieee [104, 10, 97, 10, 98, 10, 99] [10] 2 = some blocks ∧
+    blocks.flatten = [97, 10, 98, 10, 99] := by
+  have := blocks_not_zero ieee ieee_good [104, 10, 97, 10, 98, 10, 99] [10] (by decide) 2 (by decide) (by decide) (by decide)
+  simpa [seekPos, seekSimple, findIdx] using this
+example : readTextLines ieee (encode [8364, 124]) (encode [97, 8364, 124, 233, 8364, 124, 98]) (some 3) =
+    (refLines [8364, 124] [97, 8364, 124, 233, 8364, 124, 98]).map (List.map encode) :=
+  read_text_utf8 [8364, 124] _ (by intro c hc; simp at hc; omega) (by decide)
+    (by intro c hc; simp at hc; omega) (by unfold BorderFree; decide) 3 (by decide) (by decide)
 
 end Dask.C50
